@@ -42,6 +42,7 @@ RULE = (
     "mtime_ns, BLAKE2) of the evidence directory before and after. Non-trivial = the workload made the library open >= 1 "
     "file by path; the open call sites reached are reported in the evidence."
 )
+RULE += ' Round 10: scenario steps envelope-spooled (an in-memory spooled file must not be rolled over to disk) and reader-closed (a reader closed / left through with / dropped over a delete-on-close temporary file).'
 ASSUMPTIONS = [
     "decides the property on the paths the generated workloads execute; the static 'every call site' reading of the quantifier is "
     "reported (open call sites reached vs. found by a source scan) but not claimed",
